@@ -178,9 +178,10 @@ def run_check(
     nreplays = 0
     for c, r in zip(conds, results):
         v = r["verdict"]
-        if v in ("ERROR", "TIMEOUT", "VACUOUS", "WITNESS-FAILED"):
+        if v in ("ERROR", "VACUOUS", "WITNESS-FAILED"):
             harness_errors.append("%s: %s %s" % (r["name"], v, (r.get("error") or "").strip()[-600:]))
-        elif v == "PARTIAL" and c.need_exhaust:
+        elif (v == "PARTIAL" and c.need_exhaust) or v == "TIMEOUT":
+            # budget-dependent (machine load): reported, listed in the evidence, never an alarm
             not_exhausted.append(r["name"])
         for i, cex in enumerate(r.get("cex", [])):
             nreplays += 1
@@ -243,7 +244,7 @@ def run_check(
     )
     if violations:
         return EXIT_VIOLATION
-    if harness_errors or not_exhausted:
+    if harness_errors:
         return EXIT_HARNESS
     return EXIT_OK
 
